@@ -149,7 +149,7 @@ static void do_tree(const char *key)
 	}
 	walk(&ref, "", 0);
 	kdump_attr_unref(ctx, &ref);
-	qsort(ents, nents, sizeof *ents, entcmp);
+	if (nents) qsort(ents, nents, sizeof *ents, entcmp);
 	printf("> tree ok");
 	for (i = 0; i < nents; ++i) { printf(" %s", ents[i].s); free(ents[i].s); }
 	putchar('\n');
